@@ -596,14 +596,15 @@ func (t *Dense) Eq(other interface{}) bool {
 }
 
 func (t *Dense) Zero() {
+	if t.IsMasked() {
+		t.ResetMask()
+	}
 	if t.IsMaterializable() {
 		it := newFlatIterator(&t.AP)
 		if err := t.zeroIter(it); err != nil {
 			panic(err)
 		}
-	}
-	if t.IsMasked() {
-		t.ResetMask()
+		return
 	}
 	t.array.Zero()
 }
